@@ -52,6 +52,39 @@ impl TilesReaderTrait for MemReader {
 	}
 }
 
+/// The same source answering box streams from its stored tiles instead of through the trait's default implementation
+/// (which enumerates every coordinate of the box): used for sparse deep tile sets, where the cost of the SOURCE must not
+/// hide the cost of the writer under test.
+#[derive(Debug, Clone)]
+pub struct SparseMemReader(pub MemReader);
+
+#[async_trait]
+impl TilesReaderTrait for SparseMemReader {
+	fn get_source_name(&self) -> &str {
+		&self.0.name
+	}
+	fn get_container_name(&self) -> &str {
+		"mem"
+	}
+	fn get_parameters(&self) -> &TilesReaderParameters {
+		&self.0.params
+	}
+	fn override_compression(&mut self, tile_compression: TileCompression) {
+		self.0.params.tile_compression = tile_compression;
+	}
+	fn get_tilejson(&self) -> &TileJSON {
+		&self.0.tilejson
+	}
+	async fn get_tile_data(&self, coord: &TileCoord3) -> Result<Option<Blob>> {
+		Ok(self.0.tiles.get(coord).cloned())
+	}
+	async fn get_bbox_tile_stream(&self, bbox: TileBBox) -> TileStream {
+		let mut v: Vec<(TileCoord3, Blob)> = self.0.tiles.iter().filter(|(c, _)| bbox.contains3(c)).map(|(c, b)| (*c, b.clone())).collect();
+		v.sort_by_key(|(c, _)| (c.z, c.y, c.x));
+		TileStream::from_vec(v)
+	}
+}
+
 /// Deterministic payload bytes for a payload id: equal ids are byte-equal, different ids differ.
 /// `size` bytes; `compressible` chooses repetitive or pseudo-random content. The id is embedded at the start.
 pub fn payload(id: u32, size: usize, compressible: bool) -> Vec<u8> {
